@@ -21,6 +21,10 @@ fn registry() -> Vec<PartDesc> {
     v.push(desc::<props::c07::C07E2>("exploration"));
     v.push(desc::<props::c07::C07E2X>("exploration"));
     v.push(desc::<props::c09::C09>("exploration"));
+    v.push(desc::<props::c10::C10E1>("exploration"));
+    v.push(desc::<props::c10::C10E2>("exploration"));
+    v.push(desc::<props::c10::C10E2X>("exploration"));
+    v.push(desc::<props::c10::C10Free>("exploration"));
     v.push(desc::<props::c12::C12>("exploration"));
     v.push(desc::<props::c08::C08>("fault_enumeration"));
     #[cfg(feature = "async-trait")]
